@@ -114,7 +114,7 @@ var TemplateNames = []string{
 	"leading-lookahead", "bumpalong-loop", "loop-then-x", "loop-ending-loop-body", "alt-shared-prefix",
 	"alt-shared-set-prefix", "atomic-alternation", "nested-atomic", "lookbehind-loop", "conditional-loop",
 	"wide-literal", "negated-first-set", "counted-group-loop", "lazy-loop-then-x", "alt-with-empty",
-	"start-anchor-G", "backref-after-loop", "lookaround-conditional", "alt-counted-set-prefix", "loop-then-optional-group", "group-loop-overlapping-head", "long-literal", "lookbehind-group-loop", "landmark-overlap", "lazy-group-loop", "capture-loop-backref", "long-counted-set", "balancing-pop", "balancing-pop-mirrored", "landmark-alternation", "alt-shared-lead-byte", "counted-literal-group", "optional-overlapping-set-loop", "threshold-count", "case-like-punctuation-set", "nested-mixed-laziness",
+	"start-anchor-G", "backref-after-loop", "lookaround-conditional", "alt-counted-set-prefix", "loop-then-optional-group", "group-loop-overlapping-head", "long-literal", "lookbehind-group-loop", "landmark-overlap", "lazy-group-loop", "capture-loop-backref", "long-counted-set", "balancing-pop", "balancing-pop-mirrored", "landmark-alternation", "alt-shared-lead-byte", "counted-literal-group", "optional-overlapping-set-loop", "threshold-count", "case-like-punctuation-set", "nested-mixed-laziness", "balancing-ending", "sparse-numbered-ref",
 }
 
 // Template builds template number k with random leaves.
@@ -409,7 +409,7 @@ func (t *T) Template(k int) *Node {
 		if t.R.Intn(4) == 0 {
 			ns = []int{255, 256, 257, 1023, 1024, 1025, 1100}
 		}
-		return t.Threshold(ns[t.R.Intn(len(ns))], t.R.Intn(6), t.R.Intn(3) == 0)
+		return t.Threshold(ns[t.R.Intn(len(ns))], t.R.Intn(thresholdShapes), t.R.Intn(3) == 0)
 	case "case-like-punctuation-set":
 		// ASCII punctuation pairs that differ by 0x20 like letters do ([ and {, \ and |, ] and },
 		// ^ and ~, @ and `): not case pairs, whatever a bit trick says
@@ -454,6 +454,65 @@ func (t *T) Template(k int) *Node {
 		}
 		mid := []*Node{&Node{K: KEmpty}, L(t.l()), t.loop(t.unit())}[t.R.Intn(3)]
 		return Cat(t.tail(), popNode, mid, Rep(push, 1, -1))
+	case "balancing-ending":
+		// a balancing group whose pop can fail AFTER its body has matched (the body itself makes, or
+		// pops, the capture the group needs), at the end of the pattern, of an atomic group or of a
+		// look-around: the body's other choices must still be tried
+		a, b := t.l(), t.l()
+		push := func(gid int, body *Node) *Node {
+			return &Node{K: KGroup, Capture: true, GID: gid, Name: "a", Kids: []*Node{body}}
+		}
+		pop := func(gid, ref int, body *Node) *Node {
+			n := &Node{K: KBalance, GID: gid, Ref: ref, ByName: true, Kids: []*Node{body}}
+			if t.R.Intn(3) == 0 {
+				n.Name = "c"
+			}
+			return n
+		}
+		lazyOpt := func(n *Node) *Node { r := Rep(n, 0, 1); r.Lazy = true; return r }
+		var core *Node
+		t.gid = 3
+		switch t.R.Intn(6) {
+		case 0:
+			core = pop(1, 2, lazyOpt(push(2, L(a)))) // (?<-a>(?<a>x)??)
+		case 1:
+			core = pop(1, 2, Or(&Node{K: KEmpty}, push(2, L(a)))) // (?<-a>|(?<a>x))
+		case 2:
+			core = Cat(push(1, L(a)), pop(2, 1, Rep(pop(3, 1, L(b)), 0, 1))) // (?<a>x)(?<-a>(?<-a>y)?)
+		case 3:
+			core = Cat(push(1, L(a)), pop(2, 1, NC(Or(pop(3, 1, L(b)), L(b))))) // (?<a>x)(?<-a>(?:(?<-a>y)|y))
+		case 4:
+			core = Cat(push(1, &Node{K: KEmpty}), pop(2, 1, Rep(pop(3, 1, L(b)), 0, -1))) // (?<a>)(?<-a>(?<-a>y)*)
+		default:
+			core = Cat(push(1, L(a)), pop(2, 1, Cat(L(b), lazyOpt(pop(3, 1, L(b)))))) // (?<a>x)(?<-a>y(?<-a>y)??)
+		}
+		switch t.R.Intn(4) {
+		case 0:
+			return Cat(t.tail(), core)
+		case 1:
+			return Cat(t.tail(), At(core), t.tail())
+		case 2:
+			return Cat(t.tail(), Look(true, false, core), L(a), t.tail())
+		}
+		return core
+	case "sparse-numbered-ref":
+		// explicitly numbered groups with holes in the numbering (slot != number), and a back-reference
+		// or a conditional on one of them: the capture must survive in every program variant
+		nums := [][]int{{2, 3}, {5, 7}, {2, 5}, {3, 4}, {12, 30}}[t.R.Intn(5)]
+		t.gid = 2
+		g1 := &Node{K: KGroup, Capture: true, GID: 1, Num: nums[0], Kids: []*Node{t.unit()}}
+		g2 := &Node{K: KGroup, Capture: true, GID: 2, Num: nums[1], Kids: []*Node{[]*Node{t.unit(), t.loop(t.unit())}[t.R.Intn(2)]}}
+		which := 1 + t.R.Intn(2)
+		var ref *Node
+		if t.R.Intn(2) == 0 {
+			ref = &Node{K: KBackref, Ref: which, Sp: t.R.Intn(6)}
+		} else {
+			ref = &Node{K: KCondRef, Ref: which, Kids: []*Node{L(t.l()), L(t.l())}}
+		}
+		if t.R.Intn(3) == 0 {
+			return Cat(g1, t.tail(), g2, ref)
+		}
+		return Cat(g1, g2, ref, t.tail())
 	case "lookaround-conditional":
 		return Cat(&Node{K: KCondExpr, Kids: []*Node{Look(t.R.Intn(2) == 0, t.R.Intn(2) == 0, Cat(t.unit(), t.loop(t.unit()))), Cat(t.unit(), t.loop(t.unit())), Cat(t.loop(t.unit()), t.unit())}}, t.tail())
 	}
@@ -472,16 +531,18 @@ func (n *Node) fix() *Node {
 var ThresholdCounts = []int{3, 4, 5, 6, 7, 8, 9, 19, 20, 21, 22, 31, 32, 33, 49, 50, 51, 63, 64, 65, 255, 256, 257, 1023, 1024, 1025, 1100}
 
 // ThresholdCombos is the number of (count, shape, ignore-case) combinations of the family.
-func ThresholdCombos() int { return len(ThresholdCounts) * 6 * 2 }
+func ThresholdCombos() int { return len(ThresholdCounts) * thresholdShapes * 2 }
+
+const thresholdShapes = 8
 
 // ThresholdNth builds combination k of the threshold family (deterministic enumeration: the
 // large counts under IgnoreCase are rare in a random draw).
 func (t *T) ThresholdNth(k int) *Node {
 	k %= ThresholdCombos()
-	return t.Threshold(ThresholdCounts[k%len(ThresholdCounts)], (k/len(ThresholdCounts))%6, k/(len(ThresholdCounts)*6) == 1)
+	return t.Threshold(ThresholdCounts[k%len(ThresholdCounts)], (k/len(ThresholdCounts))%thresholdShapes, k/(len(ThresholdCounts)*thresholdShapes) == 1)
 }
 
-// Threshold builds one member of the threshold family: count n, shape 0..5, optionally under (?i:...).
+// Threshold builds one member of the threshold family: count n, shape 0..7, optionally under (?i:...).
 func (t *T) Threshold(n, shape int, ic bool) *Node {
 	a, b := t.l(), t.l()
 	for b == a {
@@ -502,6 +563,11 @@ func (t *T) Threshold(n, shape int, ic bool) *Node {
 			n = 300
 		}
 		core = Cat(S(t.word(n)), t.unit()) // a literal of n runes
+	case 6:
+		// the repeater stays a (non-atomic) loop because the SAME character follows it: (a{n})ab
+		core = Cat(t.Cap(Rep(L(a), n, n)), L(a), L(b))
+	case 7:
+		core = Cat(Rep(L(a), n, n), Look(true, false, L(a)), L(a), L(b)) // a{n}(?=a)ab
 	default:
 		core = Cat(Dot(), Rep(Cls(false, CR(a)), n, n), L(b))
 	}
